@@ -1,9 +1,9 @@
 package main
 
 import (
-	"strings"
 	"fmt"
 	"go/types"
+	"strings"
 	"unicode/utf8"
 
 	"golang.org/x/tools/go/ssa"
@@ -116,6 +116,22 @@ func (w *Worker) stepMore(s *State, f *Frame, in ssa.Instruction) ([]*State, boo
 		v := w.val(s, f, x.X)
 		if b, ok := v.(SliceV); ok && b.Len == -1 && b.Obj != 0 && (x.Low != nil || x.High != nil) {
 			return w.sliceBlob(s, f, x, b)
+		}
+		if sv, ok := v.(StrV); ok {
+			symbolic := false
+			if x.Low != nil {
+				if iv, ok := w.val(s, f, x.Low).(IntV); ok && !iv.C {
+					symbolic = true
+				}
+			}
+			if x.High != nil {
+				if iv, ok := w.val(s, f, x.High).(IntV); ok && !iv.C {
+					symbolic = true
+				}
+			}
+			if symbolic {
+				return w.sliceStrSym(s, f, x, sv)
+			}
 		}
 		lo, hi := 0, -1
 		if x.Low != nil {
@@ -613,22 +629,8 @@ func (w *Worker) builtin(s *State, f *Frame, x *ssa.Call, name string, args []Va
 	return nil, false
 }
 
-
-// sumLen is the length of a string term as a sum over the leaves of its concatenation.
-func sumLen(a StrV) IntV {
-	if a.K != SOpaque {
-		return strLen(a)
-	}
-	leaves := flattenConcat(a.T)
-	if len(leaves) == 1 {
-		return strLen(a)
-	}
-	parts := make([]string, len(leaves))
-	for i, l := range leaves {
-		parts[i] = strLen(opaqueStr(l)).T
-	}
-	return symInt("(+ " + strings.Join(parts, " ") + ")")
-}
+// sumLen: see strLen (kept as a name for the call sites that stress the decomposition).
+func sumLen(a StrV) IntV { return strLen(a) }
 
 // sliceBlob is b[lo:hi] for an opaque byte string with (possibly symbolic) bounds: a new
 // opaque byte string (str.substr), or - when the path condition forces a bound onto a
@@ -701,4 +703,30 @@ func (w *Worker) substrOf(st *State, str StrV, lo, hi, total IntV) StrV {
 		st.addPC(tEq("(str.len "+r.T+")", n))
 	}
 	return r
+}
+
+
+// sliceStrSym is str[lo:hi] with a symbolic bound: bounds check, then substrOf.
+func (w *Worker) sliceStrSym(s *State, f *Frame, x *ssa.Slice, str StrV) ([]*State, bool) {
+	depth := len(s.stack())
+	if str.K == SChars {
+		str = opaqueStr(str.term())
+	}
+	total := sumLen(str)
+	lo := mkInt(0)
+	hi := total
+	if x.Low != nil {
+		lo = w.val(s, f, x.Low).(IntV)
+	}
+	if x.High != nil {
+		hi = w.val(s, f, x.High).(IntV)
+	}
+	inRange := tAnd("(<= 0 "+lo.T+")", "(<= "+lo.T+" "+hi.T+")", "(<= "+hi.T+" "+total.T+")")
+	return w.branch(s, inRange,
+		func(st *State) {
+			cf := st.stack()[depth-1]
+			cf.Env[x] = w.substrOf(st, str, lo, hi, total)
+			cf.PC++
+		},
+		func(st *State) { panic(goPanic{"slice bounds out of range"}) })
 }
